@@ -148,4 +148,92 @@ theorem run_records {inv : σ → Prop} (h : LawfulModel A M inv) :
 
 end run
 
+section steps
+variable {σ χ α : Type} (A : Arith α) (M : ModelOps σ χ α)
+
+/-- with the direction configured, `TryRandomChange` decides on the verdict and the change the
+model reports for the state it has just proposed (never on a stale change), at the coolant's
+current temperature -/
+theorem tryRandomChange_decision (e : Explorer α) (s : σ) (c : χ) (u : α) (hdir : e.dir ≠ .unset) :
+    (tryRandomChange A M e s c u).decision =
+      acceptOrRevert A e.dir e.temperature (M.valid (M.tryChange s c)) (M.change (M.tryChange s c)) u := by
+  show acceptOrRevert A e.dir e.temperature (M.valid (M.tryChange s c))
+      (observedChange e.dir (M.valid (M.tryChange s c)) e.objectiveValueChange (M.change (M.tryChange s c))) u = _
+  cases hd : e.dir <;> cases hv : M.valid (M.tryChange s c) <;> simp_all [observedChange]
+
+theorem tryRandomChange_reportedChange (e : Explorer α) (s : σ) (c : χ) (u : α) (hdir : e.dir ≠ .unset) :
+    (tryRandomChange A M e s c u).explorer.objectiveValueChange = M.change (M.tryChange s c) := by
+  show observedChange e.dir (M.valid (M.tryChange s c)) e.objectiveValueChange (M.change (M.tryChange s c)) = _
+  cases hd : e.dir <;> cases hv : M.valid (M.tryChange s c) <;> simp_all [observedChange]
+
+@[simp] theorem tryRandomChange_temperature (e : Explorer α) (s : σ) (c : χ) (u : α) :
+    (tryRandomChange A M e s c u).explorer.temperature = e.temperature := rfl
+
+@[simp] theorem tryRandomChange_coolingFactor (e : Explorer α) (s : σ) (c : χ) (u : α) :
+    (tryRandomChange A M e s c u).explorer.coolingFactor = e.coolingFactor := rfl
+
+@[simp] theorem coolDown_coolingFactor (e : Explorer α) : (coolDown A e).1.coolingFactor = e.coolingFactor := rfl
+
+theorem coolDown_temperature (e : Explorer α) :
+    (coolDown A e).1.temperature = A.mul e.temperature e.coolingFactor := rfl
+
+/-- every proposal of a run is decided by `acceptOrRevert` on what `stepsFrom` recorded for it -/
+theorem stepsFrom_decision : ∀ (n : Nat) (ops : List (Op χ α)) (e : Explorer α) (s : σ), e.dir ≠ .unset →
+    ∀ st ∈ stepsFrom A M n ops e s,
+      st.decision = acceptOrRevert A e.dir st.temperature st.valid st.change st.draw
+  | _, [], _, _, _ => by simp [stepsFrom]
+  | n, .cool :: ops, e, s, hd => by
+    simpa [stepsFrom] using stepsFrom_decision (n + 1) ops (coolDown A e).1 s (by simpa using hd)
+  | n, .try c u :: ops, e, s, hd => by
+    intro st hst
+    simp only [stepsFrom, List.mem_cons] at hst
+    rcases hst with rfl | hst
+    · exact tryRandomChange_decision A M e s c u hd
+    · have := stepsFrom_decision n ops (tryRandomChange A M e s c u).explorer
+        (tryRandomChange A M e s c u).model (by simpa using hd) st hst
+      simpa using this
+
+/-- `stepsFrom` and `run` walk the same proposals: same reported changes, same verdicts -/
+theorem stepsFrom_run : ∀ (n : Nat) (ops : List (Op χ α)) (e : Explorer α) (s : σ), e.dir ≠ .unset →
+    (stepsFrom A M n ops e s).map (fun st => (st.change, st.decision.accepted)) =
+      (run A M ops e s).1.map (fun r => (r.change, r.accepted))
+  | _, [], _, _, _ => by simp [stepsFrom, run]
+  | n, .cool :: ops, e, s, hd => by
+    simpa [stepsFrom, run] using stepsFrom_run (n + 1) ops (coolDown A e).1 s (by simpa using hd)
+  | n, .try c u :: ops, e, s, hd => by
+    have ih := stepsFrom_run n ops (tryRandomChange A M e s c u).explorer
+      (tryRandomChange A M e s c u).model (by simpa using hd)
+    simp only [stepsFrom, run, List.map_cons, ih, tryRandomChange_reportedChange A M e s c u hd]
+
+end steps
+
+section stepsField
+variable {σ χ α : Type} [Field α] [LinearOrder α] (exp : α → α) (M : ModelOps σ χ α)
+
+/-- the temperature a proposal is decided at is the starting temperature multiplied by the cooling
+factor once per preceding `CoolDown` -/
+theorem stepsFrom_temperature : ∀ (n : Nat) (ops : List (Op χ α)) (e : Explorer α) (s : σ),
+    ∀ st ∈ stepsFrom (fieldArith exp) M n ops e s,
+      n ≤ st.cools ∧ st.temperature = e.temperature * e.coolingFactor ^ (st.cools - n)
+  | _, [], _, _ => by simp [stepsFrom]
+  | n, .cool :: ops, e, s => by
+    intro st hst
+    simp only [stepsFrom] at hst
+    obtain ⟨h1, h2⟩ := stepsFrom_temperature (n + 1) ops (coolDown (fieldArith exp) e).1 s st hst
+    refine ⟨by omega, ?_⟩
+    rw [h2, coolDown_temperature, coolDown_coolingFactor]
+    have : st.cools - n = (st.cools - (n + 1)) + 1 := by omega
+    rw [this, pow_succ']
+    show e.temperature * e.coolingFactor * _ = _
+    rw [mul_assoc]
+  | n, .try c u :: ops, e, s => by
+    intro st hst
+    simp only [stepsFrom, List.mem_cons] at hst
+    rcases hst with rfl | hst
+    · simp
+    · simpa using stepsFrom_temperature n ops (tryRandomChange (fieldArith exp) M e s c u).explorer
+        (tryRandomChange (fieldArith exp) M e s c u).model st hst
+
+end stepsField
+
 end Crem.Kirkpatrick
